@@ -453,4 +453,112 @@ theorem writeLocExpr_prefix (pos : Nat) (ops : List Operation) (bs : Bytes) (fx 
     rw [← hpre]
     exact Leb.unsigned_roundtrip _ h64 _
 end
+/-! ## section references and their fix-ups -/
+
+section
+variable (e : Endian) (enc : Encoding) (uo : UnitOffs)
+
+theorem rdOffset_writeUdata (f : Format) (o : Nat) (p rest : Bytes)
+    (h : Ints.writeUdata e o f.wordSize = .ok p) (ho : o < 2 ^ 64) :
+    Op.rdOffset e f (p ++ rest) = .ok (o, rest) := by
+  have rt := (Ints.writeUdata_roundtrip e o _ p rest h ho).2
+  cases f with
+  | dwarf32 => simpa [Op.rdOffset, Ints.readWord, Format.wordSize] using rt
+  | dwarf64 =>
+    simp only [Format.wordSize] at rt
+    simp [Op.rdOffset, Ints.readWord, rt, Ints.offsetFromU64, ho]
+
+theorem patchAt_one (b : UInt8) (z p tail : Bytes) (h : z.length = p.length) :
+    patchAt (b :: (z ++ tail)) 1 p = b :: (p ++ tail) := by
+  unfold patchAt
+  simp only [List.take_succ_cons, List.take_zero, List.cons_append, List.nil_append]
+  congr 1
+  congr 1
+  rw [show 1 + p.length = (z.length) + 1 by omega]
+  simp [List.drop_left']
+
+/-- **Section references resolve to the intended entry.** An operation with a `.debug_info`
+reference to entry `(unit, entry)` records exactly one fix-up, at the reference field; once
+`write_debug_info_fixups` has patched it with that entry's `.debug_info` offset `o`, the reader
+decodes the operation with reference value `o`. An entry without offset makes the fix-up pass fail
+with `InvalidReference`. -/
+theorem sectionRef_fixed (hasRefs : Bool) (op : Operation) (r : DRef) (size : Nat)
+    (hs : sectionRef enc op = some (r, size))
+    (offsets : List Nat) (pos : Nat) (bs : Bytes) (fx : List Fixup) (rest : Bytes)
+    (hw : opWrite e enc uo hasRefs offsets pos op = .ok (bs, fx)) (hwf : OpWf op)
+    (info : Nat → Nat → Option Nat) :
+    ∃ u en, r = .entry u en ∧ fx = [⟨pos + 1, size, u, en⟩] ∧
+      (info u en = none → applyFixups e info pos bs fx = .err .wInvalidReference) ∧
+      ∀ o, info u en = some o → o < 2 ^ 64 → ∀ bs', applyFixups e info pos bs fx = .ok bs' →
+        Op.parse e enc (bs' ++ rest) = .ok ((image enc (fun _ => none) 0 [] o op).getD .nop, rest) := by
+  cases op <;> simp only [sectionRef, Option.some.injEq, Prod.mk.injEq] at hs <;> try (simp at hs)
+  case callRef r0 =>
+    obtain ⟨rfl, rfl⟩ := hs
+    simp only [opWrite, bind_eq_ok, Out.pure_eq, Out.ok.injEq, Prod.mk.injEq, Prod.exists] at hw
+    obtain ⟨z, f, hz, rfl, rfl⟩ := hw
+    obtain ⟨hz0, u, en, rfl, rfl⟩ := writeDRef_entry _ _ _ _ _ _ _ hz
+    have hzl := writeUdata_length _ _ _ _ hz0
+    refine ⟨u, en, rfl, rfl, ?_, ?_⟩
+    · intro hn; simp [applyFixups, hn]
+    · intro o ho ho64 bs' hap
+      simp only [applyFixups, ho, bind_eq_ok, Out.ok.injEq] at hap
+      obtain ⟨p, hp, hap⟩ := hap
+      have hpl := writeUdata_length _ _ _ _ hp
+      have := patchAt_one 0x9a z p [] (by omega)
+      simp only [List.append_nil, Nat.add_sub_cancel_left] at this hap
+      rw [this] at hap
+      rw [← hap]
+      simp only [List.cons_append, parse_cons, image, Option.getD_some]
+      show Op.parseOperands e enc 0x9a _ = _
+      simp [po_9a, rdOffset_writeUdata e enc.format o p rest hp ho64]
+  case variableValue r0 =>
+    obtain ⟨rfl, rfl⟩ := hs
+    simp only [opWrite, bind_eq_ok, Out.pure_eq, Out.ok.injEq, Prod.mk.injEq, Prod.exists] at hw
+    obtain ⟨z, f, hz, rfl, rfl⟩ := hw
+    obtain ⟨hz0, u, en, rfl, rfl⟩ := writeDRef_entry _ _ _ _ _ _ _ hz
+    have hzl := writeUdata_length _ _ _ _ hz0
+    refine ⟨u, en, rfl, rfl, ?_, ?_⟩
+    · intro hn; simp [applyFixups, hn]
+    · intro o ho ho64 bs' hap
+      simp only [applyFixups, ho, bind_eq_ok, Out.ok.injEq] at hap
+      obtain ⟨p, hp, hap⟩ := hap
+      have hpl := writeUdata_length _ _ _ _ hp
+      have := patchAt_one 0xfd z p [] (by omega)
+      simp only [List.append_nil, Nat.add_sub_cancel_left] at this hap
+      rw [this] at hap
+      rw [← hap]
+      simp only [List.cons_append, parse_cons, image, Option.getD_some]
+      show Op.parseOperands e enc 0xfd _ = _
+      simp [po_fd, rdOffset_writeUdata e enc.format o p rest hp ho64]
+  case implicitPointer r0 bo =>
+    obtain ⟨rfl, rfl⟩ := hs
+    simp only [opWrite, bind_eq_ok, Out.pure_eq, Out.ok.injEq, Prod.mk.injEq, Prod.exists] at hw
+    obtain ⟨z, f, hz, rfl, rfl⟩ := hw
+    obtain ⟨hz0, u, en, rfl, rfl⟩ := writeDRef_entry _ _ _ _ _ _ _ hz
+    have hzl := writeUdata_length _ _ _ _ hz0
+    refine ⟨u, en, rfl, rfl, ?_, ?_⟩
+    · intro hn; simp [applyFixups, hn]
+    · intro o ho ho64 bs' hap
+      simp only [applyFixups, ho, bind_eq_ok, Out.ok.injEq] at hap
+      obtain ⟨p, hp, hap⟩ := hap
+      have hpl := writeUdata_length _ _ _ _ hp
+      have := patchAt_one (vOp enc 0xa0 0xf2) z p (Leb.encodeS bo) (by omega)
+      simp only [Nat.add_sub_cancel_left] at this hap
+      rw [this] at hap
+      rw [← hap]
+      simp only [List.cons_append, List.append_assoc, parse_cons, image, Option.getD_some]
+      have key : poImplicitPointer e enc (p ++ (Leb.encodeS bo ++ rest)) = .ok (.implicitPointer o bo, rest) := by
+        unfold poImplicitPointer
+        unfold implicitPointerRefSize at hp
+        by_cases h2v : enc.version = 2
+        · simp only [h2v, if_true] at hp ⊢
+          simp [readAddress_writeUdata e o _ p _ hp ho64, Leb.signed_roundtrip bo hwf.1 hwf.2]
+        · simp only [h2v, if_false] at hp ⊢
+          simp [rdOffset_writeUdata e enc.format o p _ hp ho64, Leb.signed_roundtrip bo hwf.1 hwf.2]
+      rcases vOp_cases enc 0xa0 0xf2 with ⟨_, hv⟩ | ⟨_, hv⟩ <;> rw [hv]
+      · show Op.parseOperands e enc 0xa0 _ = _
+        rw [po_a0]; exact key
+      · show Op.parseOperands e enc 0xf2 _ = _
+        rw [po_f2]; exact key
+end
 end Gimli.WOp
